@@ -1174,6 +1174,23 @@ func TestVerifC09Client(t *testing.T) {
 			}
 		}
 	}
+	// backward verification below a root that is already in the store, from providers that lie at every height (their
+	// forged families start at height 1): the walk down from the root meets a header that is not hash-linked, the
+	// primary is replaced by a witness, and whatever ends up in the store must be hash-linked to the root.
+	for _, pat := range []int{0, 1} {
+		for _, pk := range []int{c09KEquiv, c09KGarbage, c09KLunatic, c09KWeak, c09KNotFound, c09KBadBlock} {
+			for n := 1; n <= 3 && !stop; n++ {
+				for _, wt := range c09Tuples(witMenu3, n, n == 3) {
+					for _, pm := range c09Perms(n) {
+						for _, calls := range [][]int64{{1}, {2}, {2, 1}, {1, 2}} {
+							try(c09CCase{Pattern: pat, H: H, Root: 3, From: 1, Mode: modes[0].m, Num: modes[0].num, Den: modes[0].den,
+								Primary: pk, Wit: wt, Order: pm, Calls: calls, Init: 1})
+						}
+					}
+				}
+			}
+		}
+	}
 	// NewClient over the network (root fetched from the primary and cross-checked), including providers that
 	// already misbehave at the root height, and backward verification below the root.
 	for n := 1; n <= 2 && !stop; n++ {
